@@ -44,6 +44,23 @@ if rej:
         out.append("* `%s` — %s **Reason:** %s" % (os.path.basename(d), esc(m.get("summary")), esc(m.get("reason"))))
     out.append("")
 
+# ---- independent behaviour-preserving changes ---------------------------------------------
+ben = sorted(glob.glob(os.path.join(HERE, "seeded", "benign", "C*")))
+if ben:
+    out.append("### Independent behaviour-preserving changes (`seeded/benign/<id>/`)\n")
+    out.append("Refactorings and optimisations written by sub-agents with the instruction to preserve behaviour completely (each comes with an equivalence test that passes on both trees). All 20 quick checks were run against each patched copy.\n")
+    out.append("| id | change | result of the 20 quick checks |")
+    out.append("|---|---|---|")
+    quiet = 0
+    for d in ben:
+        m = json.load(open(os.path.join(d, "meta.json")))
+        alarms = m.get("alarms", [])
+        verdict = m.get("verdict", "")
+        if not alarms:
+            quiet += 1
+        out.append("| %s | %s | %s |" % (m["id"], short(m.get("summary"), 200), "all quiet" if not alarms else ("alarm in " + ",".join(alarms) + (" - " + esc(verdict) if verdict else ""))))
+    out.append("\n%d of %d changes leave every check quiet.\n" % (quiet, len(ben)))
+
 # ---- own mutants ---------------------------------------------------------------------
 logp = os.path.join(HERE, "tools", "mutants.log")
 if os.path.exists(logp):
